@@ -69,7 +69,8 @@ def install(lw):
             if err is not None:
                 circmon.report("C19", f"Display raised {type(err).__name__}: {err} for a constructible circuit and valid "
                                       f"options", monitor="Display post-condition",
-                               mechanism=f"display_raised:{display_type}:{type(err).__name__}", witness=opts)
+                               mechanism=("display_raised:circuit_without_modes" if circuit.n_modes == 0 else
+                                          f"display_raised:{display_type}:{type(err).__name__}"), witness=opts)
             elif display_type == "svg":
                 ok = isinstance(res, drawsvg.Drawing)
                 try:
@@ -95,7 +96,8 @@ def install(lw):
             elif not isinstance(err, DisplayError):
                 circmon.report("C19", f"Display rejected {what} with {type(err).__name__} instead of DisplayError",
                                monitor="Display exception path",
-                               mechanism="display_wrong_error:" + ("type" if not valid_type else "labels"), witness=opts)
+                               mechanism=("display_raised:circuit_without_modes" if circuit.n_modes == 0 and valid_type else
+                                          "display_wrong_error:" + ("type" if not valid_type else "labels")), witness=opts)
         plt.close("all")
         if err is not None:
             raise err
@@ -150,6 +152,11 @@ def run(ctx):
                 c.ps(3, p)
                 directed = True
                 first = False
+            elif rng.random() < 0.01:
+                c = lw.Circuit(0); log.append(["circuit", 0])       # constructible: a circuit without any mode
+                if rng.random() < 0.5:
+                    c.barrier(); c.mode_swaps({})
+                ctx.bucket("circuit_without_modes")
             elif rng.random() < 0.1:
                 c = lw.Circuit(1); log.append(["circuit", 1])
                 c.ps(0, 0.3); c.loss(0, 0.2); c.barrier(); c.mode_swaps({})
